@@ -174,17 +174,15 @@ def _prefill_kind(P, caller, d):
         c2, m2 = P.lookup(caller.cls, d.func.attr)
         if m2 is not None and m2[0] == 'func':
             h = m2[1]
-            hr = [x for x in walk_own(h.node) if isinstance(x, ast.Return) and x.value is not None]
-            if len(hr) == 1:
-                k_ = _prefill_kind(P, h, astq.expand(h, hr[0].value))
-                if k_ is not None:
-                    return k_
             z = any(isinstance(x, ast.Assign) and norm(x.value).startswith('np.zeros(len(self)') for x in walk_own(h.node))
             nn = any(isinstance(x, ast.Assign) and isinstance(x.targets[0], ast.Subscript) and 'isna()' in norm(x.targets[0].slice) and 'nan' in norm(x.value) for x in walk_own(h.node))
             if z and nn:
                 return 'zero_measure'
             if z:
                 return 'zeros'
+            hr = [x for x in walk_own(h.node) if isinstance(x, ast.Return) and x.value is not None]
+            if len(hr) == 1:
+                return _prefill_kind(P, h, astq.expand(h, hr[0].value))
     return None
 
 
